@@ -94,7 +94,7 @@ CHECKS = {
         note='Centroid distances are parameters measured on the implementation; speeds are compared exactly and limits generated only where '
              'float and exact comparison agree (NaN not modelled); for filter_by_time only order and class preservation are claimed. '
              'Trusted: Lean kernel, Mathlib, CPython datetime and float semantics, the harness abstraction.',
-        technique='Lean 4 proof (invariant by induction over operation lists; loop refinement to structural recursion) + exhaustive/random differential correspondence against Track + independent Python spec',
+        technique='Lean 4 proof (invariant by induction over operation lists; loop refinement to structural recursion) + source translator (Track.__getitem__ and has_duplicate_timestamps regenerated as Lean and proved equal to the model) + exhaustive/random differential correspondence against Track + independent Python spec',
         design='§6 C17'),
     'C18': dict(
         text='Lean 4 theorems for every per-shape predicate and both collection classes. Each filter equals List.filter p re-wrapped in the '
